@@ -278,6 +278,23 @@ PROPS = {
              "instance may differ from it only when the altitude is within rounding of a cell border (not quantified).",
         technique="Lean 4 theorems over a bit-exact software-binary64 model + differential correspondence with the Go code",
     ),
+    "C18": dict(
+        modules=["SpatialId.Props.C18"],
+        families=[("proj", 8000, 60000), ("projrt", 8000, 80000)],
+        trusted_base=COMMON_TB + F64_TB + ["github.com/wroge/wgs84 (third party) is an oracle: the harness obtains its answers "
+                                            "from the same call the library makes"],
+        assumptions=["numeric claims are checked for EPSG:3857 and |alt| <= 1e4 m (larger altitudes: known finding D15)"],
+        claim="Theorems (Props/C18.lean): for every oracle the i-th output is the oracle's image of the i-th input, list length and "
+              "order are preserved, the altitude is carried over unchanged, and a rejected transform (unknown EPSG code) is a "
+              "conversion error for the whole call (proj_shape, unproj_shape, proj_err, unproj_err); over the reals the spherical "
+              "Mercator latitude map and its inverse compose to the identity on (-pi/2, pi/2) (merc_inv_fwd). The model "
+              "equals the Go code bit for bit given the oracle's answers (12 EPSG codes incl. unknown ones, empty lists). On "
+              "the implementation's answers: EPSG:3857 forward within 1e-5 m of R*lambda, R*ln tan(pi/4+phi/2) computed "
+              "with an independent libm; forward-then-back within 2e-10 degrees (lon modulo 360).",
+        note="partial: the accuracy of wgs84 and libm is validated numerically, not proved. Known finding D15 (altitude leaks into "
+             "the horizontal transform for |alt| > 1e4 m).",
+        technique="Lean 4 theorems over an oracle-parametric model + differential correspondence + numeric checker on implementation answers",
+    ),
     "C19": dict(
         modules=["SpatialId.Props.C19"],
         families=[("chgExt,mrgExt,nN,ovEA,ovSA,tiles,qv,points,geom,shift,notation,altkey,sets,chgSp,mrgSp,nbr", 150, 1200, "conc")],
@@ -320,4 +337,6 @@ NOT_APPLICABLE = {}
 KNOWN_PREDICATES = {
     # the driver's property checker tags the failure; the finding matches only its own tag
     "detail_prefix": lambda fields, detail, params: detail.startswith(params["prefix"]),
+    # D15: tagged either by the driver's checker (proj) or by the harness's round trip (projrt), only for |alt| > 1e4 m
+    "d15": lambda fields, detail, params: detail.startswith("D15ALT") or fields[-1].startswith("D15ALT"),
 }
